@@ -1637,7 +1637,10 @@ func ruleESCDECODE(c *Ctx, r *Report) {
 		return
 	}
 	nLit, nWild := 0, 0
-	type verdict struct{ bad, known bool; pos, msg, wit string }
+	type verdict struct {
+		bad, known    bool
+		pos, msg, wit string
+	}
 	out := map[string]*verdict{}
 	set := func(key string, v verdict) {
 		if old, ok := out[key]; ok && old.bad {
